@@ -163,7 +163,9 @@ func ruleFuncValuesOfCorrectType(observers *Events, addError AddErrFunc, disable
 							return
 						}
 
-						isVariable := fieldValue.Kind == ast.Variable
+						// an undefined variable, or a variable in a fragment that is walked
+						// outside of any operation, has no definition to inspect
+						isVariable := fieldValue.Kind == ast.Variable && fieldValue.VariableDefinition != nil
 						if isVariable {
 							variableName := fieldValue.VariableDefinition.Variable
 							isNullableVariable := !fieldValue.VariableDefinition.Type.NonNull
